@@ -146,10 +146,18 @@ def main():
         out = {}
         targets = json.load(open(os.path.join(VERIF, "tools", "seed_targets.json")))
         only = a[a.index("--only") + 1] if "--only" in a else None
-        for name in sorted(os.listdir(os.path.join(VERIF, "seeded"))):
-            if only and only not in name:
-                continue
-            if os.path.exists(os.path.join(VERIF, "seeded", name, "meta.json")):
+        names = [n for n in sorted(os.listdir(os.path.join(VERIF, "seeded")))
+                 if (not only or only in n) and os.path.exists(os.path.join(VERIF, "seeded", n, "meta.json"))]
+        jobs = int(a[a.index("--jobs") + 1]) if "--jobs" in a else 1
+        if jobs > 1:
+            # every run has its own scratch worktree; checks only share /verif's evidence/replays files, which runs do not read
+            from concurrent.futures import ThreadPoolExecutor
+
+            with ThreadPoolExecutor(jobs) as ex:
+                for name, res in zip(names, ex.map(lambda n: run(n, targets.get(n), tier), names)):
+                    out[name] = res
+        else:
+            for name in names:
                 out[name] = run(name, targets.get(name), tier)
         json.dump(out, open(os.path.join(VERIF, "seeded", f"RESULTS-{tier}.json"), "w"), indent=1, sort_keys=True)
         missed = {k: v for k, v in out.items() if "caught" not in v.values()}
